@@ -70,6 +70,11 @@ func PlanTunnels(c *Ctx, o TunOpts) *TunWorld {
 		tw.Cfg = env.BaseConfig()
 	}
 	tw.Cfg.Hosts = nil
+	// host names as administrators write them: all lower case, or with capitals
+	hf := []string{"h-%s.test:3389", "x-%s.test:3389", "u-%s.test:3389"}
+	if c.T.Bool(1, 4) {
+		hf = []string{"H-%s.Corp.Test:3389", "X-%s.Corp.Test:3389", "U-%s.Corp.Test:3389"}
+	}
 	for i := 0; i < o.N; i++ {
 		name := fmt.Sprintf("t%d", i)
 		tr := o.Transports[c.T.Choose(len(o.Transports))]
@@ -79,9 +84,9 @@ func PlanTunnels(c *Ctx, o TunOpts) *TunWorld {
 			From:        fmt.Sprintf("10.1.%d.%d:%d", i/200, 10+i%200, 40000+i),
 			ConnID:      connID(c, o.IDFormat, i),
 			User:        fmt.Sprintf("user%d", i),
-			AllowedHost: fmt.Sprintf("h-%s.test:3389", name),
-			DeniedHost:  fmt.Sprintf("x-%s.test:3389", name),
-			UnreachHost: fmt.Sprintf("u-%s.test:3389", name),
+			AllowedHost: fmt.Sprintf(hf[0], name),
+			DeniedHost:  fmt.Sprintf(hf[1], name),
+			UnreachHost: fmt.Sprintf(hf[2], name),
 			CloseAfter:  -1,
 		}
 		tw.Cfg.Hosts = append(tw.Cfg.Hosts, p.AllowedHost, p.UnreachHost)
